@@ -286,7 +286,9 @@ class Ombott:
             finally:
                 self.emit('after_request')
         except HTTPResponse as resp:
-            return resp
+            # a raised response is control flow: drop the traceback, or an object raised again and again
+            # (an application constant) chains the frames -- environ, body -- of every request that raised it
+            return resp.with_traceback(None)
         except (KeyboardInterrupt, SystemExit, MemoryError):
             raise
         except Exception as err500:
@@ -353,7 +355,7 @@ class Ombott:
             except StopIteration:
                 out = ''; continue                               # -----------------^
             except HTTPResponse as rs:
-                first = rs
+                first = rs.with_traceback(None)
             except (KeyboardInterrupt, SystemExit, MemoryError):
                 raise
             except Exception as err500:
